@@ -1,19 +1,405 @@
-//! Property-specific oracles that ride on the single-device world.
+//! Property-specific oracles that ride on the single-device world:
+//! C12 (compaction / key changes), C10 (nonce multiset, key binding),
+//! C16 (integrity report soundness) — see also `tamper.rs`.
 
 use crate::common::*;
 use crate::device::*;
+use futures::{pin_mut, StreamExt};
 use serde_json::Value;
+use sos_account::Account;
+use sos_backend::BackendTarget;
+use sos_core::{
+    crypto::{AccessKey, AeadPack, KeyDerivation, PrivateKey},
+    decode,
+    events::{EventLog, WriteEvent},
+    VaultId,
+};
+use sos_login::DelegatedAccess;
+use sos_sync::StorageEventLogs;
+use sos_vault::Vault;
+use std::collections::BTreeMap;
+
+/// The persisted vault (file or rows) of a folder.
+pub async fn mirror_vault(dev: &Device, fid: &VaultId) -> Result<Vault, String> {
+    let a = dev.lock().await;
+    let target = a.backend_target().await;
+    match &target {
+        BackendTarget::FileSystem(paths) => {
+            let p = paths.with_account_id(a.account_id()).vault_path(fid);
+            let b = std::fs::read(&p).map_err(|e| format!("read {}: {e}", p.display()))?;
+            decode::<Vault>(&b).await.map_err(|e| format!("decode vault: {e}"))
+        }
+        BackendTarget::Database(_, client) => {
+            sos_database::entity::FolderEntity::compute_folder_vault(client, fid)
+                .await
+                .map_err(|e| format!("compute_folder_vault: {e}"))
+        }
+    }
+}
+
+pub async fn folder_events(dev: &Device, fid: &VaultId) -> Result<Vec<WriteEvent>, String> {
+    let a = dev.lock().await;
+    let log = a.folder_log(fid).await.map_err(|e| e.to_string())?;
+    let log = log.read().await;
+    let mut out = vec![];
+    let stream = log.event_stream(false).await;
+    pin_mut!(stream);
+    while let Some(r) = stream.next().await {
+        let (_, ev) = r.map_err(|e| e.to_string())?;
+        out.push(ev);
+    }
+    Ok(out)
+}
+
+pub async fn folder_key(dev: &Device, fid: &VaultId) -> Option<AccessKey> {
+    let a = dev.lock().await;
+    a.find_folder_password(fid).await.ok().flatten()
+}
+
+/// Derive the symmetric key `key` yields for `vault` (its salt / seed / kdf).
+pub fn derive(vault: &Vault, key: &AccessKey) -> Option<PrivateKey> {
+    match key {
+        AccessKey::Password(pw) => {
+            let salt = KeyDerivation::parse_salt(vault.salt()?).ok()?;
+            let d = vault.deriver().derive(pw, &salt, vault.seed()).ok()?;
+            Some(PrivateKey::Symmetric(d))
+        }
+        AccessKey::Identity(id) => Some(PrivateKey::Asymmetric(id.clone())),
+    }
+}
+
+/// Every AEAD blob of a folder's storage: header meta, rows, event payloads.
+pub async fn folder_packs(vault: &Vault, events: &[WriteEvent]) -> Vec<(String, AeadPack)> {
+    let mut out = vec![];
+    if let Some(m) = vault.header().meta() {
+        out.push(("vault.header.meta".to_string(), m.clone()));
+    }
+    for (id, c) in vault.iter() {
+        out.push((format!("vault.row.meta:{id}"), c.1 .0.clone()));
+        out.push((format!("vault.row.secret:{id}"), c.1 .1.clone()));
+    }
+    for (i, e) in events.iter().enumerate() {
+        match e {
+            WriteEvent::CreateVault(buf) => {
+                if let Ok(v) = decode::<Vault>(buf).await {
+                    if let Some(m) = v.header().meta() {
+                        out.push((format!("event[{i}].create_vault.meta"), m.clone()));
+                    }
+                    for (id, c) in v.iter() {
+                        out.push((format!("event[{i}].create_vault.row.meta:{id}"), c.1 .0.clone()));
+                        out.push((format!("event[{i}].create_vault.row.secret:{id}"), c.1 .1.clone()));
+                    }
+                }
+            }
+            WriteEvent::SetVaultMeta(a) => out.push((format!("event[{i}].set_meta"), a.clone())),
+            WriteEvent::CreateSecret(id, c) | WriteEvent::UpdateSecret(id, c) => {
+                out.push((format!("event[{i}].meta:{id}"), c.1 .0.clone()));
+                out.push((format!("event[{i}].secret:{id}"), c.1 .1.clone()));
+            }
+            _ => {}
+        }
+    }
+    out
+}
+
+fn nonce_bytes(p: &AeadPack) -> Vec<u8> {
+    match &p.nonce {
+        sos_core::crypto::Nonce::Nonce12(n) => n.to_vec(),
+        sos_core::crypto::Nonce::Nonce24(n) => n.to_vec(),
+    }
+}
+
+struct Before {
+    op: String,
+    fid: Option<VaultId>,
+    old_key: Option<AccessKey>,
+    old_vault: Option<Vault>,
+    old_account_password: secrecy::SecretString,
+    /// per folder: (key, vault) before an account-wide operation
+    all_old: BTreeMap<VaultId, (AccessKey, Vault)>,
+}
 
 pub struct AcctOracles {
     pub prop: String,
+    before: Option<Before>,
+    /// nonce -> ciphertext digest, over everything ever seen (C10)
+    nonces: BTreeMap<Vec<u8>, String>,
 }
+
+const REKEY_OPS: [&str; 5] = ["compact", "compact_account", "chpw_folder", "chpw_account", "chcipher"];
 
 impl AcctOracles {
     pub fn new(prop: &str) -> Self {
-        AcctOracles { prop: prop.to_string() }
+        AcctOracles { prop: prop.to_string(), before: None, nonces: BTreeMap::new() }
     }
+
+    fn on(&self) -> bool {
+        matches!(self.prop.as_str(), "C12" | "C10")
+    }
+
     pub async fn begin(&mut self, _dev: &mut Device, _rec: &mut Recorder) {}
-    pub async fn before_step(&mut self, _dev: &mut Device, _s: &Value, _rec: &mut Recorder) {}
-    pub async fn after_step(&mut self, _dev: &mut Device, _s: &Value, _class: &str, _rec: &mut Recorder) {}
-    pub async fn finish(&mut self, _dev: &mut Device, _rec: &mut Recorder) {}
+
+    pub async fn before_step(&mut self, dev: &mut Device, s: &Value, _rec: &mut Recorder) {
+        self.before = None;
+        if !self.on() || dev.account.is_none() {
+            return;
+        }
+        let opn = jstr(s, "op");
+        if !REKEY_OPS.contains(&opn.as_str()) {
+            return;
+        }
+        let fid = match opn.as_str() {
+            "compact" | "chpw_folder" => dev.model.fslots.get(&ju64(s, "fslot")).copied(),
+            _ => None,
+        };
+        let mut b = Before {
+            op: opn.clone(),
+            fid,
+            old_key: None,
+            old_vault: None,
+            old_account_password: dev.password.clone(),
+            all_old: BTreeMap::new(),
+        };
+        if let Some(f) = fid {
+            b.old_key = folder_key(dev, &f).await;
+            b.old_vault = mirror_vault(dev, &f).await.ok();
+        }
+        if matches!(opn.as_str(), "chcipher" | "compact_account" | "chpw_account") {
+            let ids: Vec<VaultId> = dev.model.folders.keys().copied().collect();
+            for f in ids {
+                if let (Some(k), Ok(v)) = (folder_key(dev, &f).await, mirror_vault(dev, &f).await) {
+                    b.all_old.insert(f, (k, v));
+                }
+            }
+        }
+        self.before = Some(b);
+    }
+
+    async fn check_compacted_log(&self, dev: &mut Device, fid: &VaultId, rec: &mut Recorder, op: &str) {
+        let backend = dev.kind.name();
+        let events = match folder_events(dev, fid).await {
+            Ok(e) => e,
+            Err(e) => {
+                rec.violate("C12", &format!("C12/{backend}/{op}/log_unreadable"), format!("folder {fid}: {e}"));
+                return;
+            }
+        };
+        let live: std::collections::BTreeSet<_> = dev
+            .model
+            .folders
+            .get(fid)
+            .map(|f| f.secrets.keys().copied().collect())
+            .unwrap_or_default();
+        let mut ok = matches!(events.first(), Some(WriteEvent::CreateVault(_)));
+        let mut ids = std::collections::BTreeSet::new();
+        for e in events.iter().skip(1) {
+            match e {
+                WriteEvent::CreateSecret(id, _) => {
+                    if !ids.insert(*id) {
+                        ok = false;
+                    }
+                }
+                _ => ok = false,
+            }
+        }
+        if events.len() != 1 + live.len() || !ok || ids != live {
+            rec.violate(
+                "C12",
+                &format!("C12/{backend}/{op}/log_not_one_create_plus_one_per_live_secret"),
+                format!(
+                    "folder {fid}: log has {} events [{}] for {} live secrets",
+                    events.len(),
+                    events.iter().map(|e| format!("{:?}", sos_core::events::LogEvent::event_kind(e))).collect::<Vec<_>>().join(","),
+                    live.len()
+                ),
+            );
+        }
+    }
+
+    async fn check_old_key_dead(
+        &self,
+        dev: &mut Device,
+        fid: &VaultId,
+        old_key: &AccessKey,
+        old_vault: &Vault,
+        rec: &mut Recorder,
+        op: &str,
+        password_changes: bool,
+    ) {
+        let backend = dev.kind.name();
+        let newv = match mirror_vault(dev, fid).await {
+            Ok(v) => v,
+            Err(e) => {
+                rec.violate("C12", &format!("C12/{backend}/{op}/vault_unreadable"), format!("folder {fid}: {e}"));
+                return;
+            }
+        };
+        // the old password must not unlock the folder any more ...
+        if password_changes && newv.verify(old_key).await.is_ok() {
+            rec.violate(
+                "C12",
+                &format!("C12/{backend}/{op}/old_password_still_unlocks"),
+                format!("folder {fid}: the previous folder password still verifies against the persisted vault"),
+            );
+        }
+        // ... the new one must
+        match folder_key(dev, fid).await {
+            Some(k) => {
+                if let Err(e) = newv.verify(&k).await {
+                    rec.violate(
+                        "C12",
+                        &format!("C12/{backend}/{op}/new_password_does_not_unlock"),
+                        format!("folder {fid}: {e}"),
+                    );
+                }
+            }
+            None => rec.violate(
+                "C12",
+                &format!("C12/{backend}/{op}/new_password_missing"),
+                format!("folder {fid}: no folder password in the identity folder"),
+            ),
+        }
+        // no blob encrypted under the old derived key remains
+        if let Some(old_pk) = derive(old_vault, old_key) {
+            let events = folder_events(dev, fid).await.unwrap_or_default();
+            let packs = folder_packs(&newv, &events).await;
+            rec.stats.count_n("c12.blobs_tried_with_old_key", packs.len() as u64);
+            for (what, p) in packs {
+                if old_vault.decrypt(&old_pk, &p).await.is_ok() {
+                    rec.violate(
+                        "C12",
+                        &format!("C12/{backend}/{op}/blob_still_encrypted_under_old_key"),
+                        format!("folder {fid}: {what} still decrypts with the previous key"),
+                    );
+                    break;
+                }
+            }
+        }
+    }
+
+    pub async fn after_step(&mut self, dev: &mut Device, s: &Value, class: &str, rec: &mut Recorder) {
+        if !self.on() || dev.account.is_none() {
+            return;
+        }
+        let opn = jstr(s, "op");
+        let backend = dev.kind.name();
+        if let Some(b) = self.before.take() {
+            if class == "ok" {
+                rec.stats.probe(&format!("c12.{}", b.op));
+                // data unchanged
+                dev.check_model(rec, &format!("after_{}", b.op), &b.op, "C12").await;
+                match b.op.as_str() {
+                    "compact" => {
+                        if let Some(f) = b.fid {
+                            self.check_compacted_log(dev, &f, rec, "compact").await;
+                        }
+                    }
+                    "chpw_folder" => {
+                        if let (Some(f), Some(k), Some(v)) = (b.fid, &b.old_key, &b.old_vault) {
+                            self.check_compacted_log(dev, &f, rec, "change_folder_password").await;
+                            self.check_old_key_dead(dev, &f, k, v, rec, "change_folder_password", true).await;
+                        }
+                    }
+                    "compact_account" => {
+                        let ids: Vec<VaultId> = dev.model.folders.keys().copied().collect();
+                        for f in ids {
+                            self.check_compacted_log(dev, &f, rec, "compact_account").await;
+                        }
+                    }
+                    "chcipher" => {
+                        let want = cipher_of(ju64(s, "cipher"));
+                        let ids: Vec<VaultId> = dev.model.folders.keys().copied().collect();
+                        for f in ids {
+                            if let Ok(v) = mirror_vault(dev, &f).await {
+                                if v.cipher() != &want {
+                                    rec.violate(
+                                        "C12",
+                                        &format!("C12/{backend}/change_cipher/folder_keeps_old_cipher"),
+                                        format!("folder {f} is still {:?} after change_cipher to {:?}", v.cipher(), want),
+                                    );
+                                }
+                                if let Some((ok, ov)) = b.all_old.get(&f) {
+                                    if ov.cipher() != &want || ov.kdf() != v.kdf() {
+                                        self.check_old_key_dead(dev, &f, ok, ov, rec, "change_cipher", false).await;
+                                    }
+                                }
+                            }
+                        }
+                    }
+                    "chpw_account" => {
+                        // the old account password must not sign in any more
+                        let old: AccessKey = b.old_account_password.clone().into();
+                        let ok_old = {
+                            let a = dev.lock().await;
+                            a.verify(&old).await
+                        };
+                        if ok_old {
+                            rec.violate(
+                                "C12",
+                                &format!("C12/{backend}/change_account_password/old_password_still_verifies"),
+                                "the previous account password still verifies".into(),
+                            );
+                        }
+                        if let Ok(target) = make_target(&dev.dir, dev.kind).await {
+                            if let Ok(mut fresh) = sos_account::LocalAccount::new_unauthenticated(dev.account_id, target).await {
+                                if fresh.sign_in(&old).await.is_ok() {
+                                    rec.violate(
+                                        "C12",
+                                        &format!("C12/{backend}/change_account_password/old_password_still_signs_in"),
+                                        "a fresh instance signs in with the previous account password".into(),
+                                    );
+                                }
+                            }
+                        }
+                    }
+                    _ => {}
+                }
+                // folder == replay(log) == mirror after the rewrite
+                crate::netoracle::check_replay_as(dev, rec, &b.op, false, "C12").await;
+            } else if class.starts_with("err") {
+                rec.stats.count(&format!("c12.{}.err", b.op));
+            }
+        }
+        // C10 (a): nonce multiset over everything the folder keys ever encrypted
+        if self.prop == "C10" && !matches!(opn.as_str(), "restart" | "signout_in") {
+            self.collect_nonces(dev, rec).await;
+        }
+    }
+
+    async fn collect_nonces(&mut self, dev: &mut Device, rec: &mut Recorder) {
+        let backend = dev.kind.name();
+        let ids: Vec<VaultId> = dev.model.folders.keys().copied().collect();
+        for f in ids {
+            let (Ok(v), Ok(ev)) = (mirror_vault(dev, &f).await, folder_events(dev, &f).await) else { continue };
+            for (what, p) in folder_packs(&v, &ev).await {
+                let n = nonce_bytes(&p);
+                let d = short_hash(&hex::encode(&p.ciphertext));
+                match self.nonces.get(&n) {
+                    Some(prev) if prev != &d => {
+                        rec.violate(
+                            "C10",
+                            &format!("C10/{backend}/nonce_reused_for_different_ciphertext"),
+                            format!("folder {f}: {what}: nonce {} was already used for another ciphertext", hex::encode(&n)),
+                        );
+                    }
+                    Some(_) => {}
+                    None => {
+                        self.nonces.insert(n, d);
+                    }
+                }
+            }
+        }
+        rec.stats.counters.insert("c10.distinct_nonces".into(), self.nonces.len() as u64);
+    }
+
+    pub async fn finish(&mut self, dev: &mut Device, rec: &mut Recorder) {
+        if self.prop == "C10" {
+            self.collect_nonces(dev, rec).await;
+            crate::tamper::key_binding(dev, rec).await;
+            crate::tamper::tamper_blobs(dev, rec).await;
+        }
+        if self.prop == "C16" {
+            crate::tamper::integrity_checks(dev, rec).await;
+        }
+    }
 }
